@@ -1,16 +1,140 @@
 /-
   PCV.Model.DrvC15 — driver requests of property C15 (op names start with "c15.").
+
+  Wire forms: a term is `[[var,pow],…]`, a polynomial `[[coeff,term],…]` (the `terms` vector of the
+  `SparsePolynomial`).  Keys are not sent element by element: the request carries the trapdoor
+  scalars (`betas g gamma h`) and the sizes (`nv d s`), and the model derives the committer /
+  verifier key with its own `setup` and `trim`.
 -/
 import PCV.Model.Wire
 import PCV.Model.DrvUtil
+import PCV.Model.PST13
 namespace PCV
 namespace DrvC15
+open Driver
+
+variable {p : Nat}
+
+def asPair (v : Val) : R (Nat × Nat) := do
+  match ← asNats v with
+  | [a, b] => pure (a, b)
+  | _ => .error "expected-pair"
+
+def asTerm (v : Val) : R Term := do (← asList v).mapM asPair
+
+def asMono (v : Val) : R (Fp p × Term) := do
+  match ← asList v with
+  | [c, t] => pure (← asFe c, ← asTerm t)
+  | _ => .error "expected-monomial"
+
+def asPoly (v : Val) : R (MVPoly (Fp p)) := do (← asList v).mapM asMono
+def asPolys (v : Val) : R (List (MVPoly (Fp p))) := do (← asList v).mapM asPoly
+
+def vTerm (t : Term) : Val := .l (t.map fun q => .l [.n q.1, .n q.2])
+def vTerms (ts : List Term) : Val := .l (ts.map vTerm)
+def vPoly (q : MVPoly (Fp p)) : Val := .l (q.map fun ct => .l [vFe ct.1, vTerm ct.2])
+def vPolys (qs : List (MVPoly (Fp p))) : Val := .l (qs.map vPoly)
+def vNatss (xs : List (List Nat)) : Val := .l (xs.map vNats)
+
+/-- the keys of a request: `setup` from the given scalars, then `trim` -/
+def keys (r : Req) : R (Except Err (PST.CK (Fp p) × PST.VK (Fp p))) := do
+  let nv ← asNat (← need r "nv")
+  let d ← asNat (← need r "d")
+  let s ← asNat (← need r "s")
+  let betas ← asFes (p := p) (← need r "betas")
+  let g ← asFe (← need r "g")
+  let gamma ← asFe (← need r "gamma")
+  let h ← asFe (← need r "h")
+  pure <| match PST.setup d nv betas g gamma h with
+    | .error e => .error e
+    | .ok pp => PST.trim pp s
+
+def handleC15 (r : Req) : R String := do
+  match r.op with
+  | "c15.combinations" =>
+    let orig ← asNats (← need r "orig")
+    let k ← asNat (← need r "k")
+    pure <| exceptReply (combinations orig k) fun outs => [("outs", vNatss outs)]
+  | "c15.setup_terms" =>
+    -- terms in the code's order; the BTreeMap (keys, values with g = 1 ⇒ the monomials at β⃗);
+    -- the γ-rows with γ = 1; beta_h with h = 1
+    let nv ← asNat (← need r "nv")
+    let d ← asNat (← need r "d")
+    let betas ← asFes (p := p) (← need r "betas")
+    pure <| match setupTerms nv d, PST.setup d nv betas 1 1 1 with
+      | .ok ts, .ok pp =>
+        okReply [("terms", vTerms ts), ("count", .n pp.powersOfG.length),
+                 ("keys", vTerms (pp.powersOfG.map (·.1))), ("vals", vFes (pp.powersOfG.map (·.2))),
+                 ("grows", .l (pp.powersOfGammaG.map vFes)), ("bh", vFes pp.betaH)]
+      | .error e, _ => errReply e
+      | _, .error e => errReply e
+  | "c15.trim" =>
+    match ← keys (p := p) r with
+    | .error e => pure (errReply e)
+    | .ok (ck, vk) =>
+      pure <| okReply [("keys", vTerms (ck.powersOfG.map (·.1))), ("vals", vFes (ck.powersOfG.map (·.2))),
+                       ("grows", .l (ck.powersOfGammaG.map vFes)), ("g", vFe vk.g),
+                       ("gamma_g", vFe vk.gammaG), ("h", vFe vk.h), ("bh", vFes vk.betaH)]
+  | "c15.divide" =>
+    let nv ← asNat (← need r "nv")
+    let q ← asPoly (p := p) (← need r "p")
+    let z ← asFes (← need r "z")
+    pure <| okReply [("qs", vPolys (PST.divideAtPoint nv q z))]
+  | "c15.eval" =>
+    let q ← asPoly (p := p) (← need r "p")
+    let z ← asFes (← need r "z")
+    pure <| okReply [("v", vFe (evalMV q z)), ("deg", .n (degreeMV q))]
+  | "c15.commit" =>
+    match ← keys (p := p) r with
+    | .error e => pure (errReply e)
+    | .ok (ck, _) =>
+      let q ← asPoly (p := p) (← need r "p")
+      let hb ← asOptNat (← need r "hb")
+      let rng ← asBool (← need r "rng")
+      let draws ← asFes (← need r "draws")
+      pure <| exceptReply (PST.commit ck q hb rng draws) fun (c, b, rest) =>
+        [("c", vFe c), ("blind", vPoly b), ("used", .n (draws.length - rest.length))]
+  | "c15.open" =>
+    match ← keys (p := p) r with
+    | .error e => pure (errReply e)
+    | .ok (ck, _) =>
+      let nvp ← asNat (← need r "nvp")
+      let nvr ← asNat (← need r "nvr")
+      let ps ← asPolys (p := p) (← need r "ps")
+      let z ← asFes (← need r "z")
+      let rs ← asPolys (p := p) (← need r "rs")
+      let xis ← asFes (← need r "xis")
+      pure <| exceptReply (PST.open ck nvp nvr ps z rs xis) fun π =>
+        [("w", vFes π.w), ("rv", vOptFe π.rv)]
+  | "c15.check" =>
+    match ← keys (p := p) r with
+    | .error e => pure (errReply e)
+    | .ok (_, vk) =>
+      let cs ← asFes (p := p) (← need r "cs")
+      let z ← asFes (← need r "z")
+      let vs ← asFes (← need r "vs")
+      let w ← asFes (← need r "w")
+      let rv ← asOptFe (← need r "rv")
+      let xis ← asFes (← need r "xis")
+      pure <| exceptReply (PST.check vk cs z vs ⟨w, rv⟩ xis) fun b =>
+        [("b", vBool b), ("defect", vFe (PST.defect vk cs z vs ⟨w, rv⟩ xis))]
+  | "c15.batch_check" =>
+    match ← keys (p := p) r with
+    | .error e => pure (errReply e)
+    | .ok (_, vk) =>
+      let cs ← asFes (p := p) (← need r "cs")
+      let zs ← asFess (← need r "zs")
+      let vs ← asFes (← need r "vs")
+      let ws ← asFess (← need r "ws")
+      let rvs ← (← asList (← need r "rvs")).mapM asOptFe
+      let rs ← asFes (← need r "rs")
+      let πs := List.zipWith (fun w rv => (⟨w, rv⟩ : PST.Proof (Fp p))) ws rvs
+      pure <| exceptReply (PST.batchCheck vk cs zs vs πs rs) fun b => [("b", vBool b)]
+  | _ => .error "unknown-op"
 
 /-- `none` = not an op of this module -/
 def handle (p : Nat) (r : Req) : Option (Except String String) :=
-  let _ := p
-  let _ := r
-  none
+  if r.op.startsWith "c15." then some (handleC15 (p := p) r) else none
 
 end DrvC15
 end PCV
